@@ -2,7 +2,7 @@
    Statements only; proofs are in coq/Proofs/ToCsv*.v.  V_fix is the code after the repairs
    work/C18/fix-F-C18{a,b,c,d,g}.diff; V_orig the code before them (refutation theorems). *)
 From Coq Require Import ZArith List Bool.
-From EV Require Import Res Arr ToCsv ToCsvSpec ToCsvParse ToCsvLoop ToCsvTop ToCsvRound.
+From EV Require Import Res Arr ToCsv ToCsvSpec ToCsvParse ToCsvLoop ToCsvTop ToCsvRound ToCsvWriter.
 Import ListNotations.
 Open Scope Z_scope.
 
@@ -92,6 +92,27 @@ Example to_pandas_correct_hyp :
   pandas_valid fr (Some [false; true]) (CF_list [[115]; [97]]) = true /\
   to_pandas V_fix fr (Some [false; true]) (CF_list [[115]; [97]]) = Ok [([115], [CStr []]); ([97], [CInt 2])].
 Proof. vm_compute. split; reflexivity. Qed.
+
+(* 6b. reading of the specification: `select_opt` keeps row i iff the filter is absent or
+       (i < |filter| and filter[i]) — the wording of the property *)
+Theorem select_opt_index : forall (flt:option (list bool)) (rows:list (list cell)),
+  select_opt flt rows
+  = map snd (filter (fun p => match flt with None => true | Some f => nth (fst p) f false end)
+                    (combine (seq 0 (length rows)) rows)).
+Proof. exact (@ToCsvWriter.select_opt_index (list cell)). Qed.
+Print Assumptions select_opt_index.
+
+(* 6c. the repaired line writer is conservative: on records without a CR and without a cell that
+       starts with a blank it writes byte for byte what the stdlib csv.writer (lineterminator LF,
+       QUOTE_MINIMAL, as modelled from CPython 3.12) wrote *)
+Theorem fix_line_conservative : forall cells,
+  forallb plain_cell cells = true -> fix_line cells = writer_row [LF] cells.
+Proof. exact ToCsvWriter.fix_line_conservative. Qed.
+Print Assumptions fix_line_conservative.
+
+Example fix_line_conservative_hyp :
+  forallb plain_cell [[120; 44; 34]; []; [10; 32]] = true /  fix_line [[120; 44; 34]; []; [10; 32]] = [34; 120; 44; 34; 34; 34; 44; 44; 34; 10; 32; 34; 10].
+Proof. vm_compute. auto. Qed.
 
 (* 7. the code before the repairs does NOT meet the specification (findings F-C18a..d, g) *)
 (* F-C18a: a cell holding a lone CR is written bare and parsed back as two records *)
